@@ -147,11 +147,11 @@ func init() {
 	vRegister(&vCheck{
 		id: "C20", level: "model_checking", flavour: "sched", race: false,
 		shards: func(string) int { return 16 },
-		rule: "stateless model checking of the real WorkerPool (source-instrumented: every sync, atomic, channel, select, context and timer operation is a scheduling point of a controlled scheduler): scenarios with pool size 1-2, 2-4 submitters (SubmitWait or ExecuteWithWorker; each task yields once while running), a concurrent Stop and/or Resize (grow and shrink), the 50 ms submit timer as a virtual timer (fires at quiescence, or early as a deviation); every choice sequence within D-bound 2 (thorough: D-bound 3 and P-bound 2) is executed; after each execution: concurrently running tasks <= max(old,new) size, every submitter returned, an accepted task ran exactly once and its result was delivered, a refused task did not run, never (nil,true), no panic.",
+		rule: "stateless model checking of the real WorkerPool (source-instrumented: every sync, atomic, channel, select, context and timer operation is a scheduling point of a controlled scheduler): scenarios with pool size 1-2, 2-4 submitters (SubmitWait or ExecuteWithWorker; each task yields once while running), a concurrent Stop and/or Resize (grow and shrink), the 50 ms submit timer as a virtual timer (fires at quiescence, or early as a deviation); every choice sequence within D-bound 3 (thorough: D-bound 4 and P-bound 2) is executed; after each execution: concurrently running tasks <= max(old,new) size, every submitter returned, an accepted task ran exactly once and its result was delivered, a refused task did not run, never (nil,true), no panic.",
 		assumptions: []string{"scheduling points are the synchronisation operations of the instrumented package; plain memory accesses between them are atomic steps (data races are outside this check)",
 			"'blocked forever' = no thread is enabled, no timer is pending within the horizon, and the thread has not finished"},
 		run: func(c *vCtx) {
-			vSchedRunBudget(c, "C20", c20Scenarios(c.thorough()), []vPlan{{"D", 2}}, []vPlan{{"D", 3}, {"P", 2}}, 25*time.Minute)
+			vSchedRunBudget(c, "C20", c20Scenarios(c.thorough()), []vPlan{{"D", 3}}, []vPlan{{"D", 4}, {"P", 2}}, 25*time.Minute)
 		},
 		replay: func(c *vCtx, raw json.RawMessage) { vSchedReplay(c, "C20", c20Scenarios(true), raw) },
 	})
